@@ -13,7 +13,7 @@ os.rmdir(wt)
 def run(cmd, cwd, timeout=1500):
     t=time.time()
     try:
-        p = subprocess.run(cmd, cwd=cwd, env=env, shell=True, stdout=subprocess.PIPE, stderr=subprocess.STDOUT, timeout=timeout, text=True)
+        p = subprocess.run(cmd, cwd=cwd, env=env, shell=True, stdout=subprocess.PIPE, stderr=subprocess.STDOUT, timeout=timeout, text=True, errors='replace')
         return p.returncode, p.stdout[-3000:], time.time()-t
     except subprocess.TimeoutExpired as e:
         return 124, 'TIMEOUT', time.time()-t
